@@ -857,6 +857,34 @@ def run_guarded(fn, recursion_margin=120, seconds=10):
 
 
 # ---------------------------------------------------------------------------------------------------------------
+# reuse: the harnesses never hand the library a "first use" only.  compile_reused() compiles the same text twice and returns the
+# SECOND model (a compiler that keeps state between runs - a cached parse tree that the passes rewrite in place - shows there);
+# build_decoy() creates, AFTER the checker under test, another checker on the same bytes with user functions of the same names
+# that answer differently (a checker that shares its function table with later checkers shows there).
+class RecompileDiffers(Exception):
+    pass
+
+
+def compile_reused(text):
+    from ndn.app_support.light_versec import compile_lvs
+    first = compile_lvs(text)
+    second = compile_lvs(text)
+    if bytes(first.encode()) != bytes(second.encode()):
+        raise RecompileDiffers('compiling the same schema text a second time in one process gives a different model')
+    return second
+
+
+DECOY_FNS = {nm: (lambda c, args: False) for nm in ('$eq', '$eq_type', '$isin', '$neq')}
+
+
+def build_decoy(checker):
+    from ndn.app_support.light_versec import Checker
+    try:
+        Checker.load(checker.save(), dict(DECOY_FNS))
+    except Exception:   # noqa - the decoy itself is not under test
+        pass
+
+
 # speed: compile_lvs() builds a fresh lark.Lark (LALR table construction, ~25 ms) on every call.  The third-party
 # parser generator is not under test, so the harnesses let the REAL compile_lvs reuse one Lark object per grammar
 # text (the library's own grammar, transformer class and compiler code stay untouched).
